@@ -168,7 +168,7 @@ func (n *c10net) RoundTrip(req *http.Request) (*http.Response, error) {
 	}
 	n.checkConfinement(req, host, nil, h)
 	auth := req.Header.Get("Authorization")
-	now := time.Now()
+	now := verifNow()
 	if h.basicOnly {
 		u, p, ok := req.BasicAuth()
 		if ok && u == h.creds.user && p == h.creds.pass && u != "" {
@@ -258,7 +258,7 @@ func (n *c10net) tokenServer(req *http.Request, h *c10host) *http.Response {
 	if ttl == 0 {
 		ttl = 60
 	}
-	n.tokens = append(n.tokens, &c10token{text: text, host: h.name, scope: requested, expires: time.Now().Add(time.Duration(ttl) * time.Second), call: n.call, answersChallenge: n.challengedThisCall})
+	n.tokens = append(n.tokens, &c10token{text: text, host: h.name, scope: requested, expires: verifNow().Add(time.Duration(ttl) * time.Second), call: n.call, answersChallenge: n.challengedThisCall})
 	body := fmt.Sprintf(`{"token":%q}`, text)
 	if n.expiresIn != 0 {
 		body = fmt.Sprintf(`{"token":%q,"expires_in":%d}`, text, n.expiresIn)
@@ -301,13 +301,16 @@ func c10newNet() *c10net {
 			h.creds = c10creds{access: "static-" + name}
 		}
 		needIdx := 1
-		if symbolic {
+		// plainA=1 (three-call histories): host A is a Bearer registry needing scope 1 whose
+		// challenge names exactly that scope; only its credentials stay symbolic
+		plain := verifParam("plainA", 0) == 1
+		if symbolic && !plain {
 			h.basicOnly = h.creds.user != "" && verifBool(name+".basicOnly")
 			needIdx = 1 + verifChoose(name+".need", 2)
 		}
 		h.need = ParseScope(c10scopes[needIdx])
 		h.chalText = c10scopes[needIdx]
-		if symbolic && verifBool(name+".challengeWider") {
+		if symbolic && !plain && verifBool(name+".challengeWider") {
 			h.chalText = c10scopes[3]
 		}
 		n.hosts[name] = h
@@ -335,11 +338,14 @@ func VerifC10_Flow() {
 		n.challengedThisCall, n.firstWasCached = false, false
 		hostName := []string{"rega.example", "regb.example"}[verifChoose("host", 2)]
 		h := n.hosts[hostName]
-		if verifParam("trim", 0) == 1 {
-			// reduced menus for multi-call histories
+		if verifParam("trim", 0) >= 1 {
+			// reduced menus for multi-call histories (trim=2: the token server always grants)
 			n.required = ParseScope(c10scopes[1+verifChoose("required", 2)])
 			n.want = ParseScope("")
-			n.tokMode = verifChoose("tokenServer", 2)
+			n.tokMode = 0
+			if verifParam("trim", 0) == 1 {
+				n.tokMode = verifChoose("tokenServer", 2)
+			}
 			n.expiresIn = []int{1, 3}[verifChoose("expiresIn", 2)]
 			n.rejectFresh = false
 		} else {
@@ -350,7 +356,7 @@ func VerifC10_Flow() {
 			n.rejectFresh = verifBool("rejectFresh")
 		}
 		// does the transport hold a cached, unexpired, sufficient token for this host?
-		now := time.Now()
+		now := verifNow()
 		haveCached := false
 		for _, t := range n.tokens {
 			if t.host == hostName && t.scope.Contains(n.required) && !now.Add(time.Second).After(t.expires) {
